@@ -54,7 +54,7 @@ def child (p : Pos) (seg : Seg) : Next :=
       match slotOf fs k with
       | .field n => .pos ⟨false, n, v⟩
       | .sect cfs => if selected fs kvs = some k then .pos ⟨false, .group false cfs, v⟩ else .unselected
-      | .none => if (appendSlot fs k).isSome then .data else .undefinedKey   -- `k+` of a list argument: its elements
+      | .none => if metaLeaf k v || (appendSlot fs k).isSome then .data else .undefinedKey   -- a filtered meta entry; `k+` of a list argument
   | .classArg _ _ cls, .dict kvs, .key k =>
     match assoc k kvs with
     | none => .absent
@@ -65,6 +65,7 @@ def child (p : Pos) (seg : Seg) : Next :=
         if k = "class_path" then .data
         else if k = "init_args" then .pos ⟨true, .group true cfs, v⟩
         else if k = "dict_kwargs" then .dictKwargs
+        else if k = "__path__" then .data
         else .undefinedKey
   | .listOf _ it, .list xs, .idx i =>
     match xs[i]? with
@@ -161,10 +162,10 @@ def foreignAt (q : Pos) (z : String) : Bool :=
   match q.node, q.val with
   | .group _ fs, .dict _ =>
     match slotOf fs z with
-    | .none => (appendSlot fs z).isNone       -- not `k+` of a list-typed argument `k` either
+    | .none => !isMeta z && (appendSlot fs z).isNone       -- not a meta key, not `k+` of a list-typed argument `k` either
     | _ => false
   | .classArg _ _ cls, .dict kvs =>
-    (classOf cls kvs).isSome && !(z = "class_path") && !(z = "init_args") && !(z = "dict_kwargs")
+    (classOf cls kvs).isSome && !(z = "class_path") && !(z = "init_args") && !(z = "dict_kwargs") && !(z = "__path__")
   | _, _ => false
 
 /-- the choices of every subcommands action in `l` are not argument names of the level `fs` -/
